@@ -269,6 +269,8 @@ pub fn run_c14(ctx: &Ctx) -> Report {
         Ok(aux) => merge_aux(&mut rep, &aux, "base"),
         Err(e) => rep.engine_failures.push(e),
     }
+    #[cfg(feature = "likelysubtags")]
+    super::conc::run_family(ctx, "direction", "c14.schedule", &mut rep);
     rep.rule = "E4, complete, in two builds of the library (with and without the likelysubtags feature): all CLDR layout locales (clauses 1 and 4: equality with characterOrder / differences only within the stated allowance), every (language, script, region) of the CLDR universe plus unknowns (clauses 2 and 3: a listed script decides alone; unlisted/absent script + language never listed RTL => LTR), and a sub-universe x 3 variant lists (variants never matter). Non-trivial = direction other than LTR.".into();
     rep.assumptions = vec!["data/cldr-misc-full/main/*/layout.json is the source of truth; 'root' is not an identifier and is skipped".into()];
     rep
